@@ -526,3 +526,105 @@ def _new_contract(clsname):
 
 _new_contract("_LineSegment")
 _new_contract("_MoveTo")
+
+
+# ---------------------------------------------------------------------------------------------------------
+# BOUNDED: the same geometry facts through the public API on real shapes
+
+
+def _native_geometry(tier="quick", seed=0):
+    import itertools
+    import time as _t
+
+    from pptx import Presentation
+    from pptx.enum.shapes import MSO_CONNECTOR, MSO_SHAPE
+    from pptx.util import Emu
+
+    from .c09 import connector_refusal_probes
+
+    t0 = _t.time()
+    obls, evals = [], 0
+
+    def rec(name, bad):
+        r = {"name": name, "base": name, "kind": "bounded", "status": "refuted" if bad else "discharged", "backend": "native", "time": 0, "path": 0}
+        if bad:
+            r["replay"] = {"confirmed": True, "witness_class": "geometry", "detail": bad}
+            r["model"] = None
+        obls.append(r)
+
+    for lbl, bad in connector_refusal_probes():
+        rec("C17.native." + lbl, bad)
+    # connectors: every direction, every end moved before / between / beyond the other end; the other end never moves
+    bad = None
+    pts = [100, 3000, 9000]
+    for bx, by, ex, ey in itertools.product(pts, repeat=4):
+        prs = Presentation()
+        sl = prs.slides.add_slide(prs.slide_layouts[6])
+        cx = sl.shapes.add_connector(MSO_CONNECTOR.STRAIGHT, Emu(bx), Emu(by), Emu(ex), Emu(ey))
+        evals += 1
+        got = (cx.begin_x, cx.begin_y, cx.end_x, cx.end_y)
+        if got != (bx, by, ex, ey):
+            bad = bad or "add_connector(%d, %d, %d, %d) reads back %r" % (bx, by, ex, ey, got)
+            continue
+        if (cx.left, cx.top, cx.width, cx.height) != (min(bx, ex), min(by, ey), abs(bx - ex), abs(by - ey)):
+            bad = bad or "add_connector(%d, %d, %d, %d): box (left, top, width, height) = %r" % (bx, by, ex, ey, (cx.left, cx.top, cx.width, cx.height))
+        for attr, idx in (("begin_x", 0), ("begin_y", 1), ("end_x", 2), ("end_y", 3)):
+            for v in (0, 50, 3000, 5000, 9000, 20000):
+                want = list((cx.begin_x, cx.begin_y, cx.end_x, cx.end_y))
+                setattr(cx, attr, Emu(v))
+                want[idx] = v
+                evals += 1
+                got = [cx.begin_x, cx.begin_y, cx.end_x, cx.end_y]
+                if got != want:
+                    bad = bad or "connector %r: %s = %d gives %r" % (tuple(want[:idx] + ["?"] + want[idx + 1:]), attr, v, tuple(got))
+    rec("C17.native.connector_end_points_read_back_and_are_independent", bad)
+    # groups: the group's box is the bounding box of its members (also zero-width / zero-height members), upward through nesting
+    bad = None
+
+    def bbox(shapes):
+        xs = [(s.left, s.top, s.left + s.width, s.top + s.height) for s in shapes]
+        return (min(x[0] for x in xs), min(x[1] for x in xs), max(x[2] for x in xs), max(x[3] for x in xs))
+
+    prs = Presentation()
+    sl = prs.slides.add_slide(prs.slide_layouts[6])
+    outer = sl.shapes.add_group_shape()
+    inner = outer.shapes.add_group_shape()
+    steps = [
+        lambda: inner.shapes.add_shape(MSO_SHAPE.RECTANGLE, Emu(1000), Emu(1000), Emu(800), Emu(700)),
+        lambda: inner.shapes.add_connector(MSO_CONNECTOR.STRAIGHT, Emu(500), Emu(1200), Emu(4000), Emu(1200)),   # horizontal: zero height
+        lambda: inner.shapes.add_connector(MSO_CONNECTOR.STRAIGHT, Emu(1500), Emu(100), Emu(1500), Emu(6000)),   # vertical: zero width
+        lambda: outer.shapes.add_textbox(Emu(10), Emu(20), Emu(30), Emu(40)),
+        lambda: inner.shapes.add_connector(MSO_CONNECTOR.STRAIGHT, Emu(9000), Emu(9000), Emu(8000), Emu(200)),   # flipped
+        lambda: outer.shapes.add_picture(__import__("io").BytesIO(_png()), Emu(20000), Emu(5), Emu(10), Emu(10)),
+    ]
+    for k, st in enumerate(steps):
+        st()
+        evals += 1
+        for g, name in ((inner, "inner group"), (outer, "outer group")):
+            members = list(g.shapes)
+            if not members:
+                continue
+            bb = bbox(members)
+            box = (g.left, g.top, g.left + g.width, g.top + g.height)
+            if box != bb:
+                bad = bad or "after step %d the %s spans %r, its members span %r" % (k, name, box, bb)
+            ch = g._element.grpSpPr.xfrm
+            if (ch.chOff.x, ch.chOff.y, ch.chExt.cx, ch.chExt.cy) != (g.left, g.top, g.width, g.height):
+                bad = bad or "after step %d the %s has child offset / extent %r, own offset / extent %r" % (k, name, (ch.chOff.x, ch.chOff.y, ch.chExt.cx, ch.chExt.cy), (g.left, g.top, g.width, g.height))
+    rec("C17.native.group_box_is_the_bounding_box_of_its_members", bad)
+    return {"contract": "C17.native_geometry", "prop": "C17", "status": "ok", "obligations": obls, "paths": 0, "assumed": [], "functions": {},
+            "notes": [], "solver_s": 0.0, "wall_s": _t.time() - t0,
+            "bounded": {"name": "C17.native_geometry", "bound": "81 connectors (3 coordinates per end point) x 4 end points x 6 new positions; refused end-point assignments; nested groups grown by 6 members incl. zero-width / zero-height ones",
+                        "evaluations": evals, "samples": [], "counted_as_proved": False}}
+
+
+def _png():
+    import struct
+    import zlib
+
+    raw = b"".join(b"\x00" + bytes((1, 2, 3)) * 2 for _ in range(2))
+    ch = lambda t, d: struct.pack(">I", len(d)) + t + d + struct.pack(">I", zlib.crc32(t + d) & 0xFFFFFFFF)
+    return b"\x89PNG\r\n\x1a\n" + ch(b"IHDR", struct.pack(">IIBBBBB", 2, 2, 8, 2, 0, 0, 0)) + ch(b"IDAT", zlib.compress(raw)) + ch(b"IEND", b"")
+
+
+JOBS = {"C17.native_geometry": _native_geometry}
